@@ -222,6 +222,9 @@ fn gen_coarse(prop: &str, base_seed: u64, batch: &str, run: u64, rng: &mut Rng) 
             ho.avoid_mock_panics = true;
             ho.max_calls = 15;
             ho.finish_weights = [50, 30, 20];
+            // generic instantiations share one Trait::method path
+            co.pool.extend([M::GenU8, M::GenU16, M::GmU8, M::GmU16]);
+            ho.pool.extend([M::GenU8, M::GenU16, M::GmU8, M::GmU16]);
         }
         "C04" => {
             co.ordered_pct = 75;
@@ -237,8 +240,8 @@ fn gen_coarse(prop: &str, base_seed: u64, batch: &str, run: u64, rng: &mut Rng) 
             ho.max_calls = 8;
             ho.steer_bounds = false;
             // the trait with a receiver-less provided fn in front of its unmockable methods
-            co.pool.extend([M::S0, M::S1, M::S2]);
-            ho.pool.extend([M::S0, M::S1, M::S2]);
+            co.pool.extend([M::S0, M::S1, M::S2, M::GpU8, M::GmU8]);
+            ho.pool.extend([M::S0, M::S1, M::S2, M::GpU8, M::GpU16, M::GmU8]);
         }
         _ => {}
     }
@@ -252,7 +255,20 @@ fn gen_coarse(prop: &str, base_seed: u64, batch: &str, run: u64, rng: &mut Rng) 
     if batch == "faults" || batch == "user-faults" {
         ho.fault_every = *rng.pick(&[3u64, 6, 6, 10]);
     }
-    let config = gen_config(rng, &co);
+    let mut config = gen_config(rng, &co);
+    if prop == "C07" && rng.chance(1, 6) {
+        // a hand-written matcher that registers no function: reaching it is a loud error
+        let unordered: Vec<usize> = (0..config.clauses.len())
+            .filter(|i| !matches!(config.clauses[*i].form, crate::spec::Form::NextCall))
+            .collect();
+        if !unordered.is_empty() {
+            let ci = unordered[rng.usize(unordered.len())];
+            let np = config.clauses[ci].patterns.len();
+            let p = &mut config.clauses[ci].patterns[rng.usize(np)];
+            p.has_matcher = false;
+            p.macro_form = false;
+        }
+    }
     let (threads, prelude) = gen_history(rng, &config, &ho);
     Scenario {
         prop: prop.to_string(),
